@@ -194,8 +194,17 @@ def _ml_class(v):
 EITHER_CLASSES = {"ml.semicolon_line"}
 
 
+_REPS = {}
+
+
 def representatives(letter):
     """First value of every class in enumeration order (length <= 3, then the reserved list)."""
+    if letter not in _REPS:
+        _REPS[letter] = _representatives(letter)
+    return _REPS[letter]
+
+
+def _representatives(letter):
     seen = {}
     for v in itertools.chain(gen_values(3, letter), RESERVED):
         seen.setdefault(vclass(v), v)
@@ -1512,6 +1521,10 @@ def shards(tier, seed):
         out.append({"kind": "names", "mode": "one"})
         for bi in range(len(NAME_PALETTE)):
             out.append({"kind": "names", "mode": "all", "block": bi})
+    for fam in DIM_FAMILIES:
+        parts = {"many": 4, "reuse": 2}.get(fam, 1)
+        for part in range(parts):
+            out.append({"kind": "dim", "family": fam, "part": part, "parts": parts})
     heavy = [s for s in out if s["kind"] == "history"]
     rest = [s for s in out if s["kind"] != "history"]
     rot = seed % max(1, len(rest))
@@ -1532,6 +1545,8 @@ def run_shard(shard, ctx):
         run_names(shard, ctx)
     elif k == "history":
         run_history(shard, ctx)
+    elif k == "dim":
+        run_dim(shard, ctx)
     else:
         raise ValueError(shard)
 
@@ -1540,6 +1555,11 @@ def crash_class(case):
     if isinstance(case, str):
         if case.startswith("t|"):
             return "table"
+        if case.startswith("d|"):
+            try:
+                return "dim|" + json.loads(case[2:]).get("family", "?")
+            except ValueError:
+                return "dim"
         if "#" in case:
             try:
                 head = json.loads(case.split("#", 1)[0])
@@ -1553,6 +1573,8 @@ def crash_class(case):
 
 
 def replay(case, ctx):
+    if isinstance(case, str) and case.startswith("d|"):
+        case = dict(json.loads(case[2:]), kind="dim")
     if isinstance(case, str):
         if case.startswith("t|"):
             _, R, C, r, c, v = case.split("|", 5)
@@ -1564,6 +1586,9 @@ def replay(case, ctx):
             case["hist"] = case["hist"] + [json.loads(b)]
             case["kind"] = "history"
     k = case["kind"]
+    if k == "dim":
+        check_dim(ctx, case)
+        return
     if k == "table":
         check_single(ctx, case["R"], case["C"], case["r"], case["c"], case["v"], case["letter"],
                      role=case.get("role", "value"), explicit=case.get("explicit", False))
@@ -1600,3 +1625,792 @@ def replay(case, ctx):
             rows_hist = rows_hist | rows_of(m, level)
     else:
         raise ValueError(case)
+
+
+# ===========================================================================
+# dimension families (audit follow-up): small complete enumerations of the dimensions the table and
+# container parts do not vary - value / name width, item counts, array flavours of column data and masks,
+# aliasing of inputs and outputs, reuse of one object for several writes.  Oracles: the round-trip identity
+# of the statement, `==` with a freshly built object, "a call does not change its arguments".
+# ===========================================================================
+DIM_FAMILIES = ["wide", "many", "flavour", "alias", "reuse"]
+WIDE_LENGTHS = [1, 9, 10, 11, 63, 64, 65, 99, 100, 101, 255, 256, 257, 1000, 4096]
+WIDE_TEMPLATES = ["plain", "space", "squote", "multiline", "hash"]
+WIDE_POSITIONS = [(1, 1, 0, 0), (2, 2, 0, 0), (2, 2, 0, 1), (2, 2, 1, 1), (3, 3, 1, 1)]
+WIDE_NAMES = [(1, 1), (30, 1), (100, 60)]  # (length of the first column name, length of the category name)
+MANY_ROWS = [9, 10, 11, 99, 100, 101, 1000]
+MANY_COLS = [9, 10, 11, 33, 100]
+MANY_ELEMS = [9, 10, 11, 101]
+
+
+def many_values(letter):
+    return ["", letter + " " + letter, letter + "'" + letter, '"', letter + "\n" + letter, ".", "?", "#" + letter,
+            "_" + letter, "'\""]
+
+
+def wide_value(tpl, L, letter):
+    if tpl == "plain" or L < 3:
+        return letter * L
+    if tpl == "space":
+        return letter * (L - 2) + " " + letter
+    if tpl == "squote":
+        return letter * (L - 1) + "'"
+    if tpl == "multiline":
+        return letter * (L // 2) + "\n" + letter * (L - L // 2 - 1)
+    if tpl == "hash":
+        return "#" + letter * (L - 1)
+    raise ValueError(tpl)
+
+
+def eval_custom(table, names, awkward, mask_cells=()):
+    stage, payload = roundtrip(table, names, mask_cells)
+    exp = expected_obs(table, names, set(mask_cells))
+    return failure_mode(stage, payload, exp, set(awkward)), stage, payload, exp
+
+
+def small_ok(v, letter):
+    """Does v round-trip in the small layouts (deviation-1 cases of the table part)?"""
+    mc = lambda p: ((p,) if v in (".", "?") else ())  # noqa: E731
+    return (eval_table(1, 1, letter, {(0, 0): v}, mask_cells=mc((0, 0)))[0] is None
+            and eval_table(2, 2, letter, {(1, 0): v}, mask_cells=mc((1, 0)))[0] is None
+            and eval_table(2, 2, letter, {(0, 1): v}, mask_cells=mc((0, 1)))[0] is None)
+
+
+def fm_col(cells):
+    return ("col", "str", tuple(cells), "fresh")
+
+
+def model_roundtrip(fm, flavour):
+    """Write the file model through the public API, read it again, compare everything. Returns mode or None."""
+    try:
+        root = build(fm, "file", flavour)
+        data = serialized_root(root, flavour)
+    except Exception as e:  # noqa: BLE001
+        return "serialize_error", type(e).__name__
+    try:
+        got = deep(parsed_operand(data, "file", flavour, False), "file", flavour)
+    except Exception as e:  # noqa: BLE001
+        return "parse_error", type(e).__name__
+    want = deep_expected(fm, "file")
+    if got != want:
+        return "content_changed", _first_diff(want, got)
+    return None, None
+
+
+def serialized_root(root, flavour):
+    buf = io.StringIO() if flavour == "text" else io.BytesIO()
+    root.write(buf)
+    return buf.getvalue()
+
+
+def _first_diff(want, got, path=""):
+    """Short description of the first difference between two deep() results (for reports only)."""
+    def is_map(x):
+        return isinstance(x, list) and all(isinstance(kv, list) and len(kv) == 2 and isinstance(kv[0], str) for kv in x)
+
+    if want == got:
+        return None
+    if is_map(want) and is_map(got) and want and got:
+        wk, gk = [kv[0] for kv in want], [kv[0] for kv in got]
+        if wk != gk:
+            return "%s keys %r != %r" % (path, wk[:12], gk[:12])
+        for (k, w), (_, g) in zip(want, got):
+            d = _first_diff(w, g, path + "/" + k)
+            if d:
+                return d
+    if isinstance(want, (list, tuple)) and isinstance(got, (list, tuple)) and len(want) == len(got):
+        for n, (w, g) in enumerate(zip(want, got)):
+            if w != g:
+                return "%s[%d] %r != %r" % (path, n, str(w)[:100], str(g)[:100])
+    return "%s %r != %r" % (path, str(want)[:120], str(got)[:120])
+
+
+# ---- case generators ---------------------------------------------------------
+def dim_cases(family, tier, letter):
+    q = tier == "quick"
+    if family == "wide":
+        for L in WIDE_LENGTHS:
+            for tpl in WIDE_TEMPLATES:
+                if tpl != "plain" and L < 3:
+                    continue
+                for pos in WIDE_POSITIONS:
+                    for nm in WIDE_NAMES:
+                        yield {"family": "wide", "L": L, "tpl": tpl, "pos": list(pos), "names": list(nm)}
+    elif family == "many":
+        vals = many_values(letter)
+        for R in MANY_ROWS:
+            for C in (1, 2, 3):
+                for vi in range(len(vals)):
+                    if R == 1000 and (vi not in (1, 4) or C == 3):
+                        continue
+                    for r in sorted({0, R // 2, R - 1}):
+                        for c in sorted({0, C - 1}):
+                            yield {"family": "many", "sub": "rows", "R": R, "C": C, "vi": vi, "r": r, "c": c}
+        for R in (10, 100):
+            for C in (1, 2):
+                for vi in range(len(vals)):
+                    yield {"family": "many", "sub": "uniform", "R": R, "C": C, "vi": vi}
+        for C in MANY_COLS:
+            for R in (1, 2):
+                for vi in range(len(vals)):
+                    for c in sorted({0, 9 if C > 9 else 1, C - 1}):
+                        yield {"family": "many", "sub": "cols", "R": R, "C": C, "vi": vi, "r": R - 1, "c": c}
+        for flavour in FLAVOURS:
+            for sub in ("categories", "blocks"):
+                for N in MANY_ELEMS:
+                    for vi in (1, 2, 4, 5):
+                        for j in sorted({0, N - 1}):
+                            yield {"family": "many", "sub": sub, "flavour": flavour, "N": N, "vi": vi, "j": j}
+            for R in (9, 10, 11, 99, 100, 101):
+                yield {"family": "many", "sub": "bin_rows" if flavour == "bin" else "model_rows", "flavour": flavour, "R": R}
+    elif family == "flavour":
+        for n in (1, 3):
+            for d in DATA_FLAVOURS:
+                if DATA_FLAVOURS[d][0] == "single" and n != 1:
+                    continue
+                for mk in MASK_FLAVOURS:
+                    if mk == "scalar" and n != 1:
+                        continue
+                    for route in ("column", "category_ctor", "setitem"):
+                        if route != "column" and mk != "none":
+                            continue
+                        yield {"family": "flavour", "fl": "text", "n": n, "data": d, "mask": mk, "route": route}
+            for d in BIN_DATA_FLAVOURS:
+                for mk in BIN_MASK_FLAVOURS:
+                    yield {"family": "flavour", "fl": "bin", "n": n, "data": d, "mask": mk, "route": "column"}
+    elif family == "alias":
+        for fl in FLAVOURS:
+            for kind in ALIAS_INPUTS[fl]:
+                for n in (1, 2):
+                    yield {"family": "alias", "sub": "input", "fl": fl, "input": kind, "n": n}
+            for sc in TWO_PARENT_SCENARIOS:
+                for via in ("ctor", "setitem"):
+                    yield {"family": "alias", "sub": "two_parents", "fl": fl, "scenario": sc, "via": via}
+    elif family == "reuse":
+        reps = representatives(letter)
+        for vi in range(len(reps)):
+            for sc in REUSE_SCENARIOS:
+                for lay in ((1, 1), (2, 2)):
+                    yield {"family": "reuse", "scenario": sc, "vi": vi, "lay": list(lay)}
+        for sc in REFUSED_SCENARIOS:
+            for lay in ((1, 1), (2, 2)):
+                yield {"family": "reuse", "scenario": sc, "vi": -1, "lay": list(lay)}
+    else:
+        raise ValueError(family)
+    _ = q
+
+
+# ---- flavours -------------------------------------------------------------------
+def _base_strings(letter, n):
+    return [letter + "1", letter + " " + letter, letter][:n]
+
+
+_BASE_INTS = [7, 10, 3]
+
+# name: (arity, expectation) ; expectation: "str" (the base strings) | "int" (str of the base ints) | "either" | "refuse"
+DATA_FLAVOURS = {
+    "list": ("any", "str"), "tuple": ("any", "str"), "ndarray_U": ("any", "str"), "ndarray_U_wide": ("any", "str"),
+    "ndarray_noncontiguous": ("any", "str"), "ndarray_readonly": ("any", "str"), "list_of_np_str": ("any", "str"),
+    "cifdata_list": ("any", "str"), "cifdata_ndarray": ("any", "str"),
+    "ndarray_object": ("any", "refuse"), "ndarray_bytes": ("any", "either"),
+    "ints_list": ("any", "int"), "ints_int64": ("any", "int"), "ints_int32": ("any", "int"), "ints_uint8": ("any", "int"),
+    # a CIFData that holds numbers is outside "tables of string values" (see notes: single-row write fails)
+    "cifdata_ints": ("any", "either_int"), "floats_list": ("any", "either"), "cifdata_floats": ("any", "either"),
+    "bools_list": ("any", "either"), "empty_list": ("any", "refuse"), "empty_ndarray": ("any", "refuse"),
+    "scalar_str": ("single", "str"), "scalar_np_str": ("single", "str"), "scalar_int": ("single", "int"),
+    "zero_d_ndarray": ("single", "either"),
+}
+MASK_FLAVOURS = ["none", "list_int", "list_enum", "tuple", "ndarray_uint8", "ndarray_int64", "ndarray_noncontiguous",
+                 "ndarray_readonly", "cifdata", "scalar", "all_present_list", "wrong_length"]
+BIN_DATA_FLAVOURS = {
+    "list": "str", "ndarray_U": "str", "ints_int64": "int",  # the flavours the container part uses: ACCEPT
+    "tuple": "either", "ndarray_noncontiguous": "either", "ndarray_readonly": "either", "ndarray_object": "refuse",
+    "ints_list": "either_int", "ints_int32": "either_int", "ints_uint8": "either_int", "ints_int16": "either_int",
+    "ints_uint16": "either_int", "ints_noncontiguous": "either_int", "ints_readonly": "either_int",
+    "floats_float64": "either_float", "floats_float32": "either_float",
+}
+BIN_MASK_FLAVOURS = ["none", "list_int", "list_enum", "ndarray_uint8", "ndarray_int64", "ndarray_noncontiguous",
+                     "ndarray_readonly"]
+_MASK_VALUES = [PRESENT, INAPPLICABLE, MISSING]
+
+
+def make_data(name, n, letter, binary=False):
+    import biotite.structure.io.pdbx as pdbx
+
+    B = _base_strings(letter, n)
+    I = _BASE_INTS[:n]  # noqa: E741
+    F = [1.5, 2.0, 3.25][:n]
+    if name == "list":
+        return list(B)
+    if name == "tuple":
+        return tuple(B)
+    if name == "ndarray_U":
+        return np.array(B)
+    if name == "ndarray_U_wide":
+        return np.array(B, dtype="U16")
+    if name == "ndarray_noncontiguous":
+        big = np.array([x for b in B for x in (b, "skip")])
+        return big[::2]
+    if name == "ndarray_readonly":
+        a = np.array(B)
+        a.flags.writeable = False
+        return a
+    if name == "list_of_np_str":
+        return [np.str_(b) for b in B]
+    if name == "cifdata_list":
+        return pdbx.CIFData(list(B))
+    if name == "cifdata_ndarray":
+        return pdbx.CIFData(np.array(B))
+    if name == "ndarray_object":
+        return np.array(B, dtype=object)
+    if name == "ndarray_bytes":
+        return np.array([b.encode() for b in B])
+    if name == "ints_list":
+        return list(I)
+    if name in ("ints_int64", "ints_int32", "ints_uint8", "ints_int16", "ints_uint16"):
+        return np.array(I, dtype=name.split("_")[1])
+    if name == "ints_noncontiguous":
+        return np.array([x for i in I for x in (i, 0)], dtype=np.int64)[::2]
+    if name == "ints_readonly":
+        a = np.array(I, dtype=np.int64)
+        a.flags.writeable = False
+        return a
+    if name == "cifdata_ints":
+        return pdbx.CIFData(np.array(I))
+    if name == "floats_list":
+        return list(F)
+    if name == "cifdata_floats":
+        return pdbx.CIFData(np.array(F))
+    if name in ("floats_float64", "floats_float32"):
+        return np.array(F, dtype=name.split("_")[1])
+    if name == "bools_list":
+        return [True, False, True][:n]
+    if name == "empty_list":
+        return []
+    if name == "empty_ndarray":
+        return np.array([], dtype=str)
+    if name == "scalar_str":
+        return B[0]
+    if name == "scalar_np_str":
+        return np.str_(B[0])
+    if name == "scalar_int":
+        return I[0]
+    if name == "zero_d_ndarray":
+        return np.array(B[0])
+    raise ValueError(name)
+
+
+def make_mask(name, n):
+    import biotite.structure.io.pdbx as pdbx
+
+    M = _MASK_VALUES[:n] if n > 1 else [MISSING]
+    if name == "none":
+        return None, [PRESENT] * n
+    if name == "list_int":
+        return list(M), M
+    if name == "list_enum":
+        return [pdbx.MaskValue(x) for x in M], M
+    if name == "tuple":
+        return tuple(M), M
+    if name == "ndarray_uint8":
+        return np.array(M, dtype=np.uint8), M
+    if name == "ndarray_int64":
+        return np.array(M, dtype=np.int64), M
+    if name == "ndarray_noncontiguous":
+        return np.array([x for m in M for x in (m, 0)], dtype=np.uint8)[::2], M
+    if name == "ndarray_readonly":
+        a = np.array(M, dtype=np.uint8)
+        a.flags.writeable = False
+        return a, M
+    if name == "cifdata":
+        return pdbx.CIFData(np.array(M, dtype=np.uint8)), M
+    if name == "scalar":
+        return pdbx.MaskValue.MISSING, [MISSING]
+    if name == "all_present_list":
+        return [PRESENT] * n, [PRESENT] * n
+    if name == "wrong_length":
+        return [PRESENT] * (n + 1), None
+    raise ValueError(name)
+
+
+def check_flavour(ctx, case, letter):
+    import biotite.structure.io.pdbx as pdbx
+
+    fl, n, dname, mname, route = case["fl"], case["n"], case["data"], case["mask"], case["route"]
+    binary = fl == "bin"
+    kind = (BIN_DATA_FLAVOURS[dname] if binary else DATA_FLAVOURS[dname][1])
+    mask, M = make_mask(mname, n)
+    data = make_data(dname, n, letter, binary)
+    refuse = kind == "refuse" or M is None
+    if M is None:
+        M = [PRESENT] * n
+    either = kind.startswith("either")
+    base = {"str": _base_strings(letter, n), "int": [str(i) for i in _BASE_INTS[:n]], "either_int": [str(i) for i in _BASE_INTS[:n]],
+            "either_float": None}.get(kind, _base_strings(letter, n) if kind in ("either", "refuse") else None)
+    if kind == "either" and dname in ("floats_list", "cifdata_floats", "bools_list"):
+        base = None
+    want_cells = None if base is None else [("." if m == INAPPLICABLE else "?" if m == MISSING else b) for b, m in zip(base, M)]
+    sigtail = "%s|data:%s|mask:%s|%s" % (fl, dname, mname, route)
+    Col, Cat, Blk, Fil = ((pdbx.BinaryCIFColumn, pdbx.BinaryCIFCategory, pdbx.BinaryCIFBlock, pdbx.BinaryCIFFile) if binary
+                          else (pdbx.CIFColumn, pdbx.CIFCategory, pdbx.CIFBlock, pdbx.CIFFile))
+    ctx.ev(1, 1)
+    try:
+        if route == "column":
+            col = Col(data, mask) if mask is not None else Col(data)
+            cat = Cat({"k": col})
+        elif route == "category_ctor":
+            cat = Cat({"k": data})
+        else:
+            cat = Cat({"j": [letter] * n})
+            cat["k"] = data
+            del cat["j"]
+        col = cat["k"]
+        pre = ([str(x) for x in col.as_array(str)],
+               [PRESENT] * len(col) if col.mask is None else [int(x) for x in col.mask.array], len(col))
+        root = Fil({"b": Blk({"c": cat})})
+        payload = serialized_root(root, fl)
+        back = parsed_operand(payload, "file", fl, False)
+        c2 = back["b"]["c"]["k"]
+        post = ([str(x) for x in c2.as_array(str)],
+                [PRESENT] * len(c2) if c2.mask is None else [int(x) for x in c2.mask.array], len(c2))
+        exc = None
+    except Exception as e:  # noqa: BLE001
+        exc = type(e).__name__
+    if refuse:
+        ctx.count("refused")
+        if exc is None:
+            ctx.violation("flavour|no_error|" + sigtail, "input documented to be refused was accepted", case,
+                          expected="an exception", observed=post)
+        return
+    if exc is not None:
+        if either:
+            ctx.count("unspecified")
+            ctx.outcome(("flavour", sigtail, exc))
+            return
+        ctx.violation("flavour|raises_%s|%s" % (exc, sigtail), "accepted array flavour raised", case,
+                      expected=want_cells, observed=exc)
+        return
+    ctx.outcome(("flavour", sigtail, tuple(post[0])))
+    if want_cells is None:
+        # unspecified text representation (floats, bools): only stability through the file is demanded
+        ctx.count("unspecified")
+        if fl == "text" and pre != post:
+            ctx.violation("flavour|unstable|" + sigtail, "column changes between construction and the parsed file", case,
+                          expected=pre, observed=post)
+        return
+    ctx.count("unspecified" if either else "accepted")
+    want = (want_cells, list(M), n)
+    for stage, got in (("constructed", pre), ("parsed", post)):
+        if got != want:
+            ctx.violation("flavour|%s_differs|%s" % (stage, sigtail),
+                          "column built from this array flavour differs from the strings that went in (%s)" % stage, case,
+                          expected=want, observed=got)
+            return
+
+
+# ---- aliasing -----------------------------------------------------------------------
+ALIAS_INPUTS = {
+    "text": ["data_list", "data_ndarray", "cifdata_ndarray_masked", "mask_list", "mask_ndarray", "columns_dict",
+             "categories_dict", "blocks_dict", "as_array_output", "as_array_output_masked"],
+    "bin": ["data_list", "data_ndarray", "data_ints", "bindata_ndarray_masked", "mask_ndarray", "columns_dict",
+            "categories_dict", "blocks_dict", "as_array_output", "as_array_output_masked"],
+}
+TWO_PARENT_SCENARIOS = ["category_twice_in_block", "block_twice_in_file", "category_in_two_blocks",
+                        "column_twice_in_category", "column_in_two_categories"]
+
+
+def _snap(x):
+    if isinstance(x, np.ndarray):
+        return ("nd", x.dtype.str, x.tolist())
+    if isinstance(x, dict):
+        return ("dict", [(k, id(v)) for k, v in x.items()])
+    return ("seq", type(x).__name__, list(x))
+
+
+def check_alias(ctx, case, letter):
+    import biotite.structure.io.pdbx as pdbx
+
+    fl = case["fl"]
+    binary = fl == "bin"
+    Data, Col, Cat, Blk, Fil = ((pdbx.BinaryCIFData, pdbx.BinaryCIFColumn, pdbx.BinaryCIFCategory, pdbx.BinaryCIFBlock,
+                                 pdbx.BinaryCIFFile) if binary else
+                                (pdbx.CIFData, pdbx.CIFColumn, pdbx.CIFCategory, pdbx.CIFBlock, pdbx.CIFFile))
+    ctx.ev(1, 1)
+    if case["sub"] == "two_parents":
+        return check_two_parents(ctx, case, letter, (Col, Cat, Blk, Fil))
+    kind, n = case["input"], case["n"]
+    B = [letter + "1", letter + " " + letter][:n]
+    Mk = [MISSING, INAPPLICABLE][:n]
+
+    def new_col(data, mask=None):
+        return Col(data, mask) if mask is not None else Col(data)
+
+    def use(root, col):
+        """every read access the property speaks of; returns an observation"""
+        o = [[str(x) for x in col.as_array(str)], None if col.mask is None else [int(x) for x in col.mask.array]]
+        col.as_array()
+        if n == 1:
+            col.as_item()
+        payload = serialized_root(root, fl)
+        back = parsed_operand(payload, "file", fl, True)
+        o.append(deep(back, "file", fl))
+        return o
+
+    sig = "alias|%s|" % fl + kind
+    try:
+        twin = None
+        if kind in ("data_list", "data_ndarray", "data_ints"):
+            inp = list(B) if kind == "data_list" else (np.array(B) if kind == "data_ndarray" else np.array([5, 6][:n]))
+            mk = lambda: new_col(inp)  # noqa: E731
+        elif kind in ("cifdata_ndarray_masked", "bindata_ndarray_masked"):
+            inp = np.array(B)
+            mk = lambda: new_col(Data(inp), np.array(Mk, dtype=np.uint8))  # noqa: E731
+        elif kind == "mask_list":
+            inp = list(Mk)
+            mk = lambda: new_col(list(B), inp)  # noqa: E731
+        elif kind == "mask_ndarray":
+            inp = np.array(Mk, dtype=np.uint8)
+            mk = lambda: new_col(np.array(B), inp)  # noqa: E731
+        elif kind in ("as_array_output", "as_array_output_masked"):
+            inp = None
+            mk = lambda: new_col(np.array(B), np.array(Mk, dtype=np.uint8) if kind.endswith("masked") else None)  # noqa: E731
+        else:
+            inp = None
+            mk = lambda: new_col(list(B))  # noqa: E731
+        col = mk()
+        twin = mk()
+        cols = {"k": col}
+        cat = Cat(cols)
+        cats = {"c": cat}
+        blk = Blk(cats)
+        blks = {"b": blk}
+        root = Fil(blks)
+        if kind == "columns_dict":
+            inp = cols
+        elif kind == "categories_dict":
+            inp = cats
+        elif kind == "blocks_dict":
+            inp = blks
+        snap = _snap(inp) if inp is not None else None
+        eq_before = bool(col == twin)
+        first = use(root, col)
+        second = use(root, col)
+        eq_after = bool(col == twin)
+    except Exception as e:  # noqa: BLE001
+        ctx.violation(sig + "|raises_" + type(e).__name__, "aliasing scenario raised", case, "success", type(e).__name__)
+        return
+    ctx.outcome(("alias", fl, kind, n, str(first)[:200]))
+    if snap is not None and _snap(inp) != snap:
+        ctx.violation(sig + "|argument_modified", "reading / writing a container modified the object it was built from", case,
+                      expected=snap, observed=_snap(inp))
+        return
+    if first != second:
+        ctx.violation(sig + "|observation_changes_state", "a second read/write of the same container gives another result",
+                      case, expected=first, observed=second)
+        return
+    if not binary and eq_before != eq_after:
+        # (BinaryCIF: writing fills in encoding parameters that take part in ==: EITHER, see ASSUMPTIONS)
+        ctx.violation(sig + "|observation_changes_equality", "reading / writing a column changed its == with an identically "
+                      "built column", case, expected=eq_before, observed=eq_after)
+        return
+    ctx.count("accepted")
+    # sharing with the argument / with returned arrays: the statement is silent -> recorded, never a violation
+    try:
+        shared = None
+        if kind in ("data_list", "mask_list"):
+            inp[0] = "ZZ" if kind == "data_list" else PRESENT
+            shared = use(root, col) != first
+        elif kind in ("data_ndarray", "cifdata_ndarray_masked", "bindata_ndarray_masked", "mask_ndarray", "data_ints"):
+            inp[0] = ("Z" if inp.dtype.kind == "U" else 0)
+            shared = use(root, col) != first
+        elif kind in ("columns_dict", "categories_dict", "blocks_dict"):
+            inp["extra"] = next(iter(inp.values()))
+            shared = len({"columns_dict": cat, "categories_dict": blk, "blocks_dict": root}[kind]) == 2
+        elif kind.startswith("as_array_output"):
+            out = col.as_array(str)
+            if out.flags.writeable:
+                out[0] = "Z"
+                shared = use(root, col) != first
+            else:
+                shared = False
+        if shared is not None:
+            ctx.count("unspecified")
+            ctx.count("alias_%s:%s.%s" % ("shared" if shared else "independent", fl, kind))
+    except Exception as e:  # noqa: BLE001
+        ctx.count("unspecified")
+        ctx.count("alias_raises_%s:%s.%s" % (type(e).__name__, fl, kind))
+
+
+def check_two_parents(ctx, case, letter, classes):
+    Col, Cat, Blk, Fil = classes
+    fl, sc, via = case["fl"], case["scenario"], case["via"]
+    cells = [letter + "1", letter + " " + letter]
+    cm = fm_col(cells)
+
+    def put(cls, items):
+        if via == "ctor":
+            return cls(dict(items))
+        x = cls()
+        for k, v in items:
+            x[k] = v
+        return x
+
+    try:
+        col = Col(list(cells)) if fl == "text" else Col(np.array(cells))
+        if sc == "column_twice_in_category":
+            root = Fil({"B": Blk({"C": put(Cat, [("p", col), ("pq", col)])})})
+            fm = {"B": {"C": {"p": cm, "pq": cm}}}
+        elif sc == "column_in_two_categories":
+            root = Fil({"B": put(Blk, [("s", Cat({"p": col})), ("s_t", Cat({"q": col}))])})
+            fm = {"B": {"s": {"p": cm}, "s_t": {"q": cm}}}
+        elif sc == "category_twice_in_block":
+            cat = Cat({"p": col})
+            root = Fil({"B": put(Blk, [("a", cat), ("ab", cat)])})
+            fm = {"B": {"a": {"p": cm}, "ab": {"p": cm}}}
+        elif sc == "category_in_two_blocks":
+            cat = Cat({"p": col})
+            root = put(Fil, [("a", put(Blk, [("s", cat)])), ("ab", put(Blk, [("t", cat)]))])
+            fm = {"a": {"s": {"p": cm}}, "ab": {"t": {"p": cm}}}
+        elif sc == "block_twice_in_file":
+            blk = Blk({"s": Cat({"p": col})})
+            root = put(Fil, [("a", blk), ("ab", blk)])
+            fm = {"a": {"s": {"p": cm}}, "ab": {"s": {"p": cm}}}
+        else:
+            raise ValueError(sc)
+        want = deep_expected(fm, "file")
+        results = []
+        for _ in range(2):  # the second write must not be affected by names left behind by the first
+            payload = serialized_root(root, fl)
+            results.append(deep(parsed_operand(payload, "file", fl, False), "file", fl))
+        live = deep(root, "file", fl)
+    except Exception as e:  # noqa: BLE001
+        ctx.violation("alias|%s|two_parents|%s|%s|raises_%s" % (fl, sc, via, type(e).__name__),
+                      "one object stored under two keys / in two parents: raised", case, "success", type(e).__name__)
+        return
+    ctx.outcome(("two_parents", fl, sc, via, str(results[0])[:100]))
+    for label, got in (("first_write", results[0]), ("second_write", results[1]), ("live", live)):
+        if got != want:
+            ctx.violation("alias|%s|two_parents|%s|%s|%s" % (fl, sc, via, label),
+                          "one object stored under two keys / in two parents is not written like two equal objects", case,
+                          expected=want, observed=got)
+            return
+    ctx.count("accepted")
+
+
+# ---- reuse ----------------------------------------------------------------------------
+REUSE_SCENARIOS = ["replace_column_wider", "add_long_named_column", "delete_column", "rows_1_to_2_to_1",
+                   "replace_category", "rename_block", "lazy_touch_none", "lazy_touch_first", "lazy_touch_second",
+                   "lazy_modify_second", "lazy_modify_first"]
+REFUSED_SCENARIOS = ["refused_write_then_repair", "refused_setter_then_write", "refused_delete_then_write"]
+LONG_NAME = "k_long_column_name"
+
+
+def check_reuse(ctx, case, letter):
+    """One file object is written, modified through the mapping interface and written again; the result must be the
+    table that a freshly built file holds (content of the parsed text, and == with the fresh file)."""
+    import biotite.structure.io.pdbx as pdbx
+
+    sc = case["scenario"]
+    R, C = case["lay"]
+    reps = representatives(letter)
+    v = reps[case["vi"]] if case["vi"] >= 0 else letter + "\n;" + letter
+    cls = sigclass(v) if case["vi"] >= 0 else "refused_value"
+    ctx.ev(1, 1)
+
+    def column(j, awkward=None):
+        cells = [filler(letter, i, j) for i in range(R)]
+        if awkward is not None:
+            cells[R - 1] = awkward
+        return cells
+
+    good = {"k%d" % j: column(j) for j in range(C)}
+    first = dict(good)
+    first["k0"] = column(0, v)
+    wide = [letter * 12 + str(i) for i in range(R)]
+    try:
+        steps = []  # for the report
+        if sc.startswith("lazy_"):
+            fm1 = {"blk": {"A": {k: fm_col(c) for k, c in first.items()}, "B": {k: fm_col(c) for k, c in good.items()}}}
+            text = build(fm1, "file", "text").serialize()
+            f = pdbx.CIFFile.deserialize(text)
+            fm2 = {"blk": {"A": dict(fm1["blk"]["A"]), "B": dict(fm1["blk"]["B"])}}
+            if sc == "lazy_touch_first":
+                f["blk"]["A"]
+            elif sc == "lazy_touch_second":
+                f["blk"]["B"]
+            elif sc == "lazy_modify_second":
+                f["blk"]["B"][LONG_NAME] = list(wide)
+                fm2["blk"]["B"][LONG_NAME] = fm_col(wide)
+            elif sc == "lazy_modify_first":
+                f["blk"]["A"][LONG_NAME] = list(wide)
+                fm2["blk"]["A"][LONG_NAME] = fm_col(wide)
+            elif sc == "lazy_touch_none":
+                f["blk"]
+        else:
+            cat = pdbx.CIFCategory({k: list(c) for k, c in first.items()})
+            blk = pdbx.CIFBlock({"cat": cat})
+            f = pdbx.CIFFile({"blk": blk})
+            fm2 = {"blk": {"cat": {k: fm_col(c) for k, c in first.items()}}}
+            if sc in REFUSED_SCENARIOS:
+                if sc == "refused_write_then_repair":
+                    try:
+                        f.serialize()
+                        ctx.count("unspecified_exact_or_written")
+                    except Exception:  # noqa: BLE001
+                        ctx.count("unspecified_refused")
+                    cat["k0"] = list(good["k0"])
+                    fm2["blk"]["cat"]["k0"] = fm_col(good["k0"])
+                else:
+                    cat["k0"] = list(good["k0"])
+                    fm2["blk"]["cat"]["k0"] = fm_col(good["k0"])
+                    f.serialize()
+                    try:
+                        if sc == "refused_setter_then_write":
+                            f["blk"]["x"] = blk  # wrong container type
+                        else:
+                            while True:
+                                del cat[next(iter(cat))]  # the last column cannot be deleted
+                        raise RuntimeError("refusal expected")
+                    except (TypeError, ValueError):
+                        ctx.count("refused")
+                    fm2["blk"]["cat"] = {k: fm_col(c) for k, c in good.items() if k in list(cat)}
+            else:
+                f.serialize()
+                if sc == "replace_column_wider":
+                    cat["k0"] = list(wide)
+                    fm2["blk"]["cat"]["k0"] = fm_col(wide)
+                elif sc == "add_long_named_column":
+                    cat[LONG_NAME] = list(wide)
+                    fm2["blk"]["cat"][LONG_NAME] = fm_col(wide)
+                elif sc == "delete_column":
+                    cat["z"] = list(wide)
+                    f.serialize()
+                    del cat["z"]
+                elif sc == "rows_1_to_2_to_1":
+                    for k in list(cat):
+                        cat[k] = [letter, letter + "2"] if R == 1 else [letter]
+                    f.serialize()
+                    for k in list(cat):
+                        cat[k] = list(first[k])
+                elif sc == "replace_category":
+                    blk["cat"] = pdbx.CIFCategory({"k0": list(first["k0"]) + [letter]})
+                    fm2["blk"]["cat"] = {"k0": fm_col(list(first["k0"]) + [letter])}
+                elif sc == "rename_block":
+                    f["blk2"] = f.pop("blk")
+                    fm2 = {"blk2": fm2["blk"]}
+        text2 = f.serialize()
+        got = deep(pdbx.CIFFile.deserialize(text2), "file", "text")
+        want = deep_expected(fm2, "file")
+        fresh = build(fm2, "file", "text")
+        eq = bool(f == fresh) and not bool(f != fresh)
+    except Exception as e:  # noqa: BLE001
+        got, want, eq = "raised " + type(e).__name__, None, None
+    ctx.outcome(("reuse", sc, cls, str(got)[:120]))
+    if got == want and eq:
+        ctx.count("accepted")
+        return
+    if case["vi"] >= 0 and not small_ok(v, letter):
+        ctx.count("reuse_explained_by_single_cell")
+        return
+    mode = "raises" if want is None else ("content_changed" if got != want else "unequal_to_fresh_file")
+    ctx.violation("reuse|%s|%s|%s" % (sc, mode if want is not None else got.replace(" ", "_"), cls),
+                  "a file object that is written, modified and written again differs from a freshly built file", case,
+                  expected=want, observed=got if got != want else "== fresh file is False")
+
+
+# ---- wide / many -------------------------------------------------------------------------
+def check_wide(ctx, case, letter):
+    L, tpl = case["L"], case["tpl"]
+    R, C, r, c = case["pos"]
+    ncol, ncat = case["names"]
+    v = wide_value(tpl, L, letter)
+    cols = list(DEFAULT_NAMES[2])
+    cols[0] = "k" * ncol
+    names = (DEFAULT_NAMES[0], "c" * ncat, tuple(cols))
+    mode, stage, payload, exp = eval_table(R, C, letter, {(r, c): v}, names=names)
+    ctx.ev(1, 1)
+    ctx.outcome(("wide", L, tpl, mode))
+    if mode is None:
+        ctx.count("accepted_exact")
+        return
+    ctx.violation("wide|%s|%s|%s|L%d|names_%d_%d" % (layout_of(R, c), mode, tpl, L, ncol, ncat),
+                  "a %d-character value (%s) does not survive the text round trip" % (L, tpl), case,
+                  expected="identity", observed=str(_obs_short(stage, payload))[:300])
+
+
+def check_many(ctx, case, letter):
+    sub = case["sub"]
+    vals = many_values(letter)
+    ctx.ev(1, 1)
+    if sub in ("rows", "uniform", "cols"):
+        R, C, v = case["R"], case["C"], vals[case["vi"]]
+        table = [["%s%d_%d" % (letter, i, j) for j in range(C)] for i in range(R)]
+        if sub == "uniform":
+            awkward = {(i, j) for i in range(R) for j in range(C)}
+        else:
+            awkward = {(case["r"], case["c"])}
+        for (i, j) in awkward:
+            table[i][j] = v
+        names = (DEFAULT_NAMES[0], DEFAULT_NAMES[1], tuple("k%d" % j for j in range(C)))
+        mode, stage, payload, exp = eval_custom(table, names, awkward, awkward if v in (".", "?") else ())
+        count = R if sub != "cols" else C
+        detail = str(_obs_short(stage, payload))[:300] if stage != "obs" else _first_diff(
+            [[k, x] for k, x in zip(exp["cols"], exp["cells"])], [[k, x] for k, x in zip(payload.get("cols", []), payload.get("cells", []))])
+    else:
+        flavour = case["flavour"]
+        if sub in ("categories", "blocks"):
+            N, v, j = case["N"], vals[case["vi"]], case["j"]
+            if flavour == "bin" and v in (".", "?"):
+                v = letter
+            def cat(i):
+                rows = 1 + i % 2
+                cells = ["%s%d_%d" % (letter, i, x) for x in range(rows)]
+                if i == j:
+                    cells[-1] = v
+                return {"k": fm_col(cells), "k%d" % i: fm_col(cells[::-1])}
+            if sub == "categories":
+                fm = {"blk": {"c%d" % i: cat(i) for i in range(N)}}
+            else:
+                fm = {"b%d" % i: {"c": cat(i), "c%d" % i: cat(i + 1)} for i in range(N)}
+            count = N
+        else:
+            R = case["R"]
+            v = letter + " " + letter
+            cells = ["%s%d" % (letter, i) for i in range(R)]
+            cells[R - 1] = v
+            ints = ("col", "int", tuple(range(R - 1)) + ("?",), "fresh") if flavour == "bin" else fm_col([str(i) for i in range(R)])
+            fm = {"blk": {"c": {"k": fm_col(cells), "n": ints}}}
+            count = R
+        mode, detail = model_roundtrip(fm, flavour)
+        sub = sub + "." + flavour
+    ctx.outcome(("many", sub, count, mode))
+    if mode is None:
+        ctx.count("accepted_exact")
+        return
+    if not small_ok(v, letter):
+        ctx.count("many_explained_by_single_cell")
+        return
+    ctx.violation("many|%s|%s|n%d|%s" % (sub, mode, count, sigclass(v)),
+                  "a table / file with %d items does not survive the round trip" % count, case, expected="identity",
+                  observed=detail)
+
+
+def check_dim(ctx, case, letter=None):
+    letter = letter or case.get("letter") or letter_of(ctx.seed)
+    case = dict(case, kind="dim", letter=letter)
+    fam = case["family"]
+    {"wide": check_wide, "many": check_many, "flavour": check_flavour, "alias": check_alias, "reuse": check_reuse}[fam](
+        ctx, case, letter)
+
+
+def run_dim(shard, ctx):
+    letter = letter_of(ctx.seed)
+    part, parts = shard.get("part", 0), shard.get("parts", 1)
+    for i, case in enumerate(dim_cases(shard["family"], ctx.tier, letter)):
+        if i % parts != part:
+            continue
+        if not ctx.journal("d|" + json.dumps(case)):
+            continue
+        check_dim(ctx, case, letter)
+        if len(ctx.samples) < 1 and i == 7:
+            ctx.sample(dict(case, kind="dim"))
